@@ -3,6 +3,7 @@ package limiter
 import (
 	"errors"
 	"fmt"
+	"net"
 	"strconv"
 	"strings"
 	"sync"
@@ -11,6 +12,7 @@ import (
 	"github.com/gofiber/fiber/v3"
 	flim "github.com/gofiber/fiber/v3/middleware/limiter"
 	"github.com/gofiber/utils/v2"
+	"github.com/valyala/fasthttp"
 
 	"verifharness/internal/drive"
 	"verifharness/internal/vstore"
@@ -25,6 +27,15 @@ type tcfg struct {
 	// copying them (refstore.go)
 	RefStore bool `json:"storage_keeps_value_slices,omitempty"`
 	Max      int  `json:"max"`
+	// NoConfig: limiter.New() without any Config — the documented defaults apply (Max 5,
+	// Expiration 1 minute, key = c.IP(), fixed window, memory store); Max/E say so for the oracle.
+	// Keys are client addresses then.
+	NoConfig bool `json:"no_config,omitempty"`
+	// KeyView: the KeyGenerator returns c.Get("X-Key") as it is — a view of request memory, as
+	// the documentation's own example does — and the requests of the history are served on ONE
+	// reused RequestCtx, as the requests of a keep-alive connection are; key names then have
+	// equal or different lengths.
+	KeyView bool `json:"key_is_view_of_request_memory,omitempty"`
 	// MaxOmitted: the Config passed to limiter.New sets neither Max nor MaxFunc; the documented
 	// default Max = 5 applies (Max is 5 here, for the oracle)
 	MaxOmitted bool `json:"max_omitted,omitempty"`
@@ -70,6 +81,12 @@ func (c tcfg) String() string {
 	if c.MaxOmitted {
 		s += " (Max and MaxFunc omitted: default 5)"
 	}
+	if c.NoConfig {
+		s = "limiter.New() without a config (fixed, memory, Max=5, Expiration=1m, key=c.IP())"
+	}
+	if c.KeyView {
+		s += " (KeyGenerator returns c.Get(...) uncopied, one reused RequestCtx)"
+	}
 	if c.Dyn {
 		s += " MaxFunc"
 	}
@@ -84,7 +101,7 @@ func (c tcfg) String() string {
 
 // appKey identifies configurations that can share one app (memory backend only, see memRig).
 func (c tcfg) appKey() string {
-	return fmt.Sprintf("%v/%d/%v/%d/%d/%v/%v", c.Sliding, c.Max, c.MaxOmitted, c.E, c.ExpNs, c.SkipFailed, c.SkipOK)
+	return fmt.Sprintf("%v/%d/%v/%v/%d/%d/%v/%v", c.Sliding, c.Max, c.MaxOmitted, c.NoConfig, c.E, c.ExpNs, c.SkipFailed, c.SkipOK)
 }
 
 // tstep is one request of a history.
@@ -95,6 +112,10 @@ type tstep struct {
 	Max   int    `json:"max,omitempty"` // X-Max header (MaxFunc configurations); 0 = absent
 	Mode  string `json:"handler"`       // what the protected handler does, see handle
 	Delay int    `json:"handler_sleep_s,omitempty"`
+	// KeyDelayMs: the KeyGenerator takes that long (virtual time) for this request — a lookup.
+	// The request counts from the instant the generator has answered (the observation's stamps are
+	// taken there); only meaningful for Async requests, which do not hold up the history.
+	KeyDelayMs int `json:"key_generator_takes_ms,omitempty"`
 	// Rekey k > 0: the handler of this request stores key k-1 as the identified user, so the
 	// KeyGenerator answers differently once the handler has run. The request was admitted — and
 	// is counted and judged — under Key.
@@ -210,14 +231,25 @@ func newRig(cfg tcfg) *rig {
 		SkipFailedRequests:     cfg.SkipFailed,
 		SkipSuccessfulRequests: cfg.SkipOK,
 		KeyGenerator: func(c fiber.Ctx) string {
-			rg.ob(c).KeyCalls++
+			o := rg.ob(c)
+			o.KeyCalls++
 			if rg.yield != nil {
 				rg.yield("keygen")
+			}
+			if n, err := strconv.Atoi(c.Get("X-KeyDelayMs")); err == nil && n > 0 && o.KeyCalls == 1 {
+				time.Sleep(time.Duration(n) * time.Millisecond)
+				// the request reaches the limiter's counter now
+				o.T = time.Now().UnixNano()
+				o.TS = uint64(o.T / 1e9)
+				o.Seq = rg.tick()
 			}
 			// "the user if the handler chain has identified one, else the client": the answer
 			// changes once a handler has stored a user (X-Rekey requests do, see the handler)
 			if u, ok := c.Locals("user").(string); ok && u != "" {
 				return u
+			}
+			if rg.cfg.KeyView {
+				return c.Get("X-Key") // a view of the request's memory
 			}
 			return utils.CopyString(c.Get("X-Key"))
 		},
@@ -244,11 +276,16 @@ func newRig(cfg tcfg) *rig {
 			lc.Storage = newRefStore()
 		} else {
 			rg.vs = vstore.New()
+			rg.vs.KeepKeyRef = cfg.KeyView // like in-process storages: the key string is kept as given
 			lc.Storage = rg.vs
 		}
 	}
 	app := fiber.New()
-	app.Use(flim.New(lc))
+	if cfg.NoConfig {
+		app.Use(flim.New())
+	} else {
+		app.Use(flim.New(lc))
+	}
 	app.Get("/", func(c fiber.Ctx) error {
 		o := rg.ob(c)
 		o.Entered++
@@ -296,7 +333,7 @@ func getRig(cfg tcfg) *rig {
 	// X-Max, which is what the default MaxFunc does); the nil-MaxFunc path is exercised by the
 	// per-history apps of the storage backend.
 	mk := cfg
-	mk.Dyn = !cfg.MaxOmitted
+	mk.Dyn = !cfg.MaxOmitted && !cfg.NoConfig
 	// create the store's ticker at phase k s + 250 ms, away from every instant the harness acts at
 	now := time.Now()
 	ph := time.Duration(now.Nanosecond())
@@ -320,6 +357,12 @@ func keyNames(caseID string, n int) []string {
 	for i := range out {
 		out[i] = caseID + "#" + strconv.Itoa(keySerial) + "/k" + strconv.Itoa(i)
 	}
+	if keySerial%3 == 0 && n <= 8 {
+		// keys that differ in letter case only
+		for i := range out {
+			out[i] = caseID + "#" + strconv.Itoa(keySerial) + "/" + []string{"user", "User", "USER", "uSeR", "usEr", "UsEr", "useR", "uSER"}[i%8]
+		}
+	}
 	return out
 }
 
@@ -328,6 +371,9 @@ func (rg *rig) request(idx int, key string, st tstep) *drive.Req {
 		{K: "X-Req", V: strconv.Itoa(idx)}, {K: "X-Key", V: key}, {K: "X-Mode", V: st.Mode}}}
 	if st.Max > 0 {
 		rq.Hdr = append(rq.Hdr, drive.H{K: "X-Max", V: strconv.Itoa(st.Max)})
+	}
+	if st.Async && st.KeyDelayMs > 0 {
+		rq.Hdr = append(rq.Hdr, drive.H{K: "X-KeyDelayMs", V: strconv.Itoa(st.KeyDelayMs)})
 	}
 	if st.Async && st.AsyncMs > 0 {
 		rq.Hdr = append(rq.Hdr, drive.H{K: "X-DelayMs", V: strconv.Itoa(st.AsyncMs)})
@@ -353,6 +399,22 @@ func (rg *rig) exec(caseID string, steps []tstep, only int) ([]tobs, string) {
 	alignHalf()
 	base := time.Now()
 	keys := keyNames(caseID, rg.cfg.NKeys)
+	var addrs []net.Addr // NoConfig: the key is the client address
+	if rg.cfg.NoConfig {
+		for i := range keys {
+			n := keySerial*8 + i
+			addrs = append(addrs, &net.TCPAddr{IP: net.IPv4(10, byte(n>>16), byte(n>>8), byte(n)), Port: 40000})
+		}
+	}
+	var reused *fasthttp.RequestCtx // KeyView: one RequestCtx for the whole history
+	if rg.cfg.KeyView {
+		reused = &fasthttp.RequestCtx{}
+		if keySerial%2 == 0 {
+			for i := range keys {
+				keys[i] += strings.Repeat("z", i) // keys of different lengths
+			}
+		}
+	}
 	obs := make([]tobs, len(steps))
 	rg.mu.Lock()
 	rg.obs = make([]*tobs, len(steps))
@@ -388,8 +450,18 @@ func (rg *rig) exec(caseID string, steps []tstep, only int) ([]tobs, string) {
 		if st.Rekey > 0 && st.Rekey <= len(keys) {
 			rq.Hdr = append(rq.Hdr, drive.H{K: "X-Rekey", V: keys[st.Rekey-1]})
 		}
+		if addrs != nil {
+			rq.Remote = addrs[st.Key]
+		}
 		do := func() {
-			resp := rg.d.Do(rq)
+			var resp *drive.Resp
+			if reused != nil && !st.Async {
+				reused.Response.Reset() // as the server loop does between the requests of a connection
+				reused.ResetUserValues()
+				resp = rg.d.DoCtx(reused, rq)
+			} else {
+				resp = rg.d.Do(rq)
+			}
 			o.TEnd = time.Now().UnixNano()
 			o.TSEnd = uint64(o.TEnd / 1e9)
 			o.EndSeq = rg.tick()
@@ -451,6 +523,9 @@ func describeSteps(steps []tstep, obs []tobs) []string {
 		}
 		if st.Async {
 			fmt.Fprintf(&sb, " ASYNC sleeps %dms", st.AsyncMs)
+		}
+		if st.Async && st.KeyDelayMs > 0 {
+			fmt.Fprintf(&sb, " KeyGenerator takes %dms", st.KeyDelayMs)
 		}
 		if st.Delay > 0 {
 			fmt.Fprintf(&sb, " sleeps %ds", st.Delay)
